@@ -377,7 +377,9 @@ func child() int {
 			var vals []string
 			for _, l := range g {
 				ts := realTs(l)
+				ndMu.Lock()
 				tsOf[l.ID], streamOf[l.ID] = ts, s
+				ndMu.Unlock()
 				vals = append(vals, fmt.Sprintf(`["%d","L%d"]`, ts, l.ID))
 				evs = append(evs, Event{Ev: "Store", ID: l.ID, Ts: ts})
 			}
@@ -456,15 +458,17 @@ func child() int {
 						return
 					}
 					atomic.AddInt64(&frames, 1)
+					if badSeen >= 3 { // a handler spinning on the closed channel floods the client: from here on count, do not record
+						flood++
+						continue
+					}
+					ndMu.Lock()
 					ev := classify(mt, msg, tag, tsOf, streamOf, label)
+					ndMu.Unlock()
 					if ev.Kind != "ok" {
 						badSeen++
 						if badSeen == 1 {
 							close(badFrame)
-						}
-						if badSeen > 3 { // a handler spinning on the closed channel floods the client: count, do not record
-							flood++
-							continue
 						}
 					} else {
 						ndMu.Lock()
